@@ -546,7 +546,13 @@ func genRateWiring() {
 			}
 		}
 		if !inLoop {
-			loopCalls = append(loopCalls, "outside-loop "+rwCallee(c))
+			// `return f(...)` as a statement of its own (not under go/defer/a function literal) ends the
+			// function: that engine run excludes every other one of this call
+			label := "outside-loop "
+			if rwIsTailReturn(pfd.Body, c) {
+				label = "tail-return "
+			}
+			loopCalls = append(loopCalls, label+rwCallee(c))
 		}
 	}
 	fmt.Fprintf(&b, "Definition port_scan_chunk_loop_calls : list string := %s.\n\n", rwStrList(loopCalls))
@@ -804,4 +810,30 @@ func genRateLib() {
 	fmt.Fprintf(&b, "Definition ratelimit_per_request_expr : string := %s.\n", coqString(perReq))
 	fmt.Fprintf(&b, "Definition ratelimit_max_slack_expr : string := %s.\n", coqString(maxSlack))
 	writeIfChanged("RateLib.v", b.Bytes())
+}
+
+// rwIsTailReturn: the call is the only result of a return statement that is not nested in a go or
+// defer statement nor in a function literal.
+func rwIsTailReturn(body *ast.BlockStmt, c *ast.CallExpr) bool {
+	found := false
+	var stack []ast.Node
+	ast.Inspect(body, func(n ast.Node) bool {
+		if n == nil {
+			stack = stack[:len(stack)-1]
+			return true
+		}
+		if rs, ok := n.(*ast.ReturnStmt); ok && len(rs.Results) == 1 && rs.Results[0] == ast.Expr(c) {
+			ok := true
+			for _, a := range stack {
+				switch a.(type) {
+				case *ast.GoStmt, *ast.FuncLit, *ast.DeferStmt, *ast.ForStmt, *ast.RangeStmt:
+					ok = false
+				}
+			}
+			found = ok
+		}
+		stack = append(stack, n)
+		return true
+	})
+	return found
 }
